@@ -529,6 +529,27 @@ fn equality(rep: &Reporter) -> EqStats {
             }
         }
     }
+    // the same description serialized (an app may put a Response into its view model or
+    // persist it): the bytes must not depend on which instance was serialized
+    for (i, x) in resp_specs().iter().enumerate() {
+        st.pairs += 1;
+        let first_json = serde_json::to_string(&x.build()).unwrap_or_default();
+        let first_bin = crate::sys::enc(Codec::Bin, &x.build());
+        for n in 0..N {
+            st.evaluations += 1;
+            let r = x.build();
+            let j = serde_json::to_string(&r).unwrap_or_default();
+            let b = crate::sys::enc(Codec::Bin, &r);
+            if j != first_json || b != first_bin {
+                report(
+                    "response-serialize/header-order",
+                    format!("two freshly built crux_http::Response #{i} {x:?} serialize differently: {first_json} vs {j} (evaluation {n} of {N})"),
+                    json!({"kind": "ResponseSerialize", "left": i}),
+                );
+                break;
+            }
+        }
+    }
     // protocol HttpRequest as emitted by the Command API
     let specs = req_specs();
     for (i, x) in specs.iter().enumerate() {
@@ -736,8 +757,9 @@ pub fn run(tier: Tier, args: &[String]) -> i32 {
     let mut st = st;
     let samples = st.samples.take().map(|s| s.into_value()).unwrap_or(json!([]));
     let coverage = json!({
-        "states": st.nodes,
-        "transitions": st.nodes.saturating_sub(1),
+        "states": if deep_complete { deep_count as u64 } else { st.nodes },
+        "transitions": (if deep_complete { deep_count as u64 } else { st.nodes }).saturating_sub(1),
+        "states_note": "history-tree nodes of the deepest layer that was completed",
         "traces_validated_against_impl": replays + compared + deep_replays,
         "evaluations": replays + compared + deep_replays + eq.evaluations,
         "distinct_nontrivial": with_http,
